@@ -74,6 +74,9 @@ type FuncSpec struct {
 	Fail    bool    `json:"fail,omitempty"` // the body returns a non-nil final error (needs HasErr)
 	Once    bool    `json:"once,omitempty"`
 	Built   bool    `json:"built,omitempty"` // assembled with NewValueSet + BuildFunc (always has an error result)
+	// Identity: the body returns its arguments unchanged (same tokens) instead
+	// of minting fresh outputs; In and Out must have the same types/forms.
+	Identity bool `json:"identity,omitempty"`
 }
 
 func (f *FuncSpec) String() string {
